@@ -35,7 +35,7 @@ def explicit_raises(prog, rep):
     # constructing (and printing) a query error cannot itself fail: the classes add nothing that computes on the message
     for c in prog.module("aw_query.exceptions").classes.values():
         if c.name in good:
-            risky = [m for m in c.methods.values() if any(isinstance(x, (ast.Call, ast.Subscript, ast.BinOp, ast.JoinedStr)) and not (isinstance(x, ast.Call) and norm(x.func).startswith("super")) for x in walk_with_nested_exprs(m.node))]
+            risky = [m for m in c.methods.values() if m.name in ("__init__", "__new__", "__str__", "__repr__") and any(isinstance(x, (ast.Call, ast.Subscript, ast.BinOp, ast.JoinedStr)) and not (isinstance(x, ast.Call) and norm(x.func).startswith("super")) for x in walk_with_nested_exprs(m.node))]
             rep.check(not risky, "RAISE-CLASS", c.name, "the error class computes nothing", "no method that formats / indexes", (f"{c.name}.{risky[0].name} computes on its arguments (e.g. message.format(**details)): raise sites that put user text into the message (an f-string containing a brace) make the constructor itself raise KeyError / IndexError / ValueError, which escapes instead of the query error" if risky else ""), risky[0].loc() if risky else f"{c.mod.relpath}:{c.node.lineno}")
     if len(good) < 4:
         rep.error(f"anchor vanished: query exception family is {sorted(good)}")
